@@ -60,11 +60,15 @@ class Harness:
         self.by_ident = {}
         self.error = None
         self.abort = False
+        self.xres = {}
 
     def me(self):
         return self.by_ident[threading.get_ident()]
 
     def ev(self, w, *e):
+        if e[0] == 12 and self.log and self.log[-1][0] == w.tid and self.log[-1][1][0] == 12:
+            self.log[-1][1][1] += e[1]  # consecutive reads of one thread: one event
+            return
         self.log.append([w.tid, list(e)])
 
 
@@ -119,6 +123,11 @@ class Worker:
             first = False
             if cmd[0] == "call":
                 h.probe(cmd[1], bool(cmd[2]))
+            elif cmd[0] == "xq":  # a REAL query function of the library (first, uncached call)
+                h.xres[str(self.tid)] = repr(XQ[cmd[1]]())
+            elif cmd[0] == "xr":  # a synchronized reader that does not flush first
+                r = U.read_tty_all()
+                h.xres[str(self.tid)] = None if r is None else r.hex()
             else:
                 U._process_start_wrapper(h.procobj[cmd[1]])
 
@@ -188,6 +197,139 @@ class ProcObj:
         self.child = child
 
 
+# ------------------------------------------------------------------ exchange scenarios
+#
+# The REAL get_terminal_name_version / get_fg_bg_colors / get_cell_size (and under them the
+# real query_terminal / write_tty / read_tty) run against a pty whose master side is a
+# scripted FIFO terminal living in the OS layer: `utils.os` / `utils.termios` are proxies
+# that delegate to the real modules and, for the terminal's descriptor, (a) log what the
+# calling thread does (write / read n bytes / TCSAFLUSH) and (b) answer a complete request
+# synchronously, waiting until the whole reply sits in the input queue (FIONREAD), so that
+# nothing depends on timing.
+
+
+def x_replies():
+    from term_image import _ctlseqs as C
+
+    ESC = b"\x1b"
+    return [
+        (C.XTVERSION_b, ESC + b"P>|demoterm 1.2.3" + ESC + b"\\"),
+        (C.TEXT_FG_QUERY_b, ESC + b"]10;rgb:ffff/8080/0000" + ESC + b"\\"),
+        (C.TEXT_BG_QUERY_b, ESC + b"]11;rgb:0000/1111/2222" + ESC + b"\\"),
+        (C.CELL_SIZE_PX_b, ESC + b"[6;20;10t"),
+        (C.TEXT_AREA_SIZE_PX_b, ESC + b"[4;480;800t"),
+        (C.DA1_b, ESC + b"[?62;c"),
+    ], C.DA1_b
+
+
+class ScriptedTerminal:
+    def __init__(self, h):
+        import fcntl
+        import pty
+        import struct
+        import termios
+        import tty
+
+        self.h = h
+        self.master, self.slave = pty.openpty()
+        tty.setcbreak(self.slave)
+        fcntl.ioctl(self.slave, termios.TIOCSWINSZ, struct.pack("HHHH", 24, 80, 0, 0))
+        self.replies, self.da1 = x_replies()
+        self.request = bytearray()
+        self.pending = 0
+
+    def inq(self):
+        import fcntl
+        import struct
+        import termios
+
+        return struct.unpack("i", fcntl.ioctl(self.slave, termios.FIONREAD, b"\0\0\0\0"))[0]
+
+    def wrote(self, data):
+        """the terminal consumes what was written; a request that ends with DA1 is answered"""
+        import select
+        import time
+
+        got = 0
+        t0 = time.monotonic()
+        while got < len(data) and time.monotonic() - t0 < 10:
+            if select.select([self.master], [], [], 0.05)[0]:
+                chunk = os.read(self.master, 65536)
+                got += len(chunk)
+                self.request += chunk
+        n = 0
+        if self.request.endswith(self.da1):
+            req = bytes(self.request)
+            self.request.clear()
+            reply = b""
+            while req:
+                for q, r in self.replies:
+                    if req.startswith(q):
+                        reply += r
+                        req = req[len(q):]
+                        break
+                else:
+                    req = req[1:]
+            os.write(self.master, reply)
+            n = len(reply)
+            self.pending += n
+            t0 = time.monotonic()
+            while self.inq() < self.pending and time.monotonic() - t0 < 10:
+                time.sleep(0.0005)
+        return n
+
+    def close(self):
+        for fd in (self.master, self.slave):
+            try:
+                os.close(fd)
+            except OSError:
+                pass
+
+
+class OSProxy:
+    def __init__(self, h, term):
+        self._h, self._t = h, term
+
+    def __getattr__(self, name):
+        return getattr(os, name)
+
+    def write(self, fd, data):
+        n = os.write(fd, data)
+        if fd == self._t.slave:
+            self._h.ev(self._h.me(), 11, self._t.wrote(bytes(data)))
+        return n
+
+    def read(self, fd, n):
+        data = os.read(fd, n)
+        if fd == self._t.slave and data:
+            self._t.pending -= len(data)
+            self._h.ev(self._h.me(), 12, len(data))
+        return data
+
+
+class TermiosProxy:
+    def __init__(self, h, term):
+        import termios
+
+        self._h, self._t, self._m = h, term, termios
+
+    def __getattr__(self, name):
+        return getattr(self._m, name)
+
+    def tcsetattr(self, fd, when, attr):
+        if fd == self._t.slave and when == self._m.TCSAFLUSH:
+            self._h.ev(self._h.me(), 10)
+            self._t.pending = 0
+        return self._m.tcsetattr(fd, when, attr)
+
+
+XQ = {
+    "name_version": lambda: U.get_terminal_name_version(),
+    "fg_bg": lambda: U.get_fg_bg_colors(),
+    "cell_size": lambda: tuple(U.get_cell_size() or ()),
+}
+
+
 def hung():
     global GRANT_TIMEOUT
     GRANT_TIMEOUT = AFTER_HANG_TIMEOUT
@@ -212,6 +354,16 @@ def run_schedule(case):
     U._cell_size_cache = [0] * 4
     U._cell_size_lock = threading.RLock()
     made = []
+    term = None
+    if any(cmd[0] in ("xq", "xr") for _, _, prog in case["threads"] for cmd in prog):
+        import termios as real_termios
+
+        term = ScriptedTerminal(h)
+        U._tty_fd = term.slave
+        U._queries_enabled, U._query_timeout, U._swap_win_size = True, 5.0, False
+        U.os, U.termios = OSProxy(h, term), TermiosProxy(h, term)
+        U.get_terminal_name_version._invalidate_cache()
+        U.get_fg_bg_colors._invalidate_cache()
 
     def factory():
         w = h.me()
@@ -276,8 +428,13 @@ def run_schedule(case):
             return False
         return True
 
+    blocked = [0]
+
     def grant(tid):
         if not can_move(tid):
+            w = h.workers.get(tid)
+            if w is not None and w.started and not w.finished and w.at is not None:
+                blocked[0] += 1  # a pick of a thread that has to wait (lock held by another / no reply yet)
             return False
         if tid == TERM:
             h.reps.append(h.reqs.pop(0))
@@ -327,8 +484,14 @@ def run_schedule(case):
     for w in h.workers.values():
         w.thread.join(1.0 if error else GRANT_TIMEOUT)
     h.log, h.error = log, error
+    leftover = None
+    if term is not None:
+        leftover = term.inq()
+        U.os, U.termios, U._tty_fd = os, real_termios, -1
+        term.close()
     return {"log": h.log, "sched": effective, "unfinished": unfinished, "error": h.error,
-            "locks_made": len(made), "enabled": enabled}
+            "locks_made": len(made), "enabled": enabled, "xres": h.xres, "leftover": leftover,
+            "blocked_picks": blocked[0]}
 
 
 # ------------------------------------------------------------------ real processes
